@@ -24,6 +24,7 @@ type FullGen struct {
 	Family       string
 	RefBias      int // extra chance that an operand is an alias reference
 	NoUnequalVec bool
+	RawListHead  bool // list(value, ..): the element kind follows the raw text of each pair
 }
 
 func (g *FullGen) pick(xs []string) string { return xs[g.R.Intn(len(xs))] }
@@ -219,6 +220,12 @@ func (g *FullGen) numList(k int) *Node {
 	name := []string{"list", "int_list", "float_list", "ilist", "flist"}[r.Intn(5)]
 	args := make([]*Node, k)
 	for i := range args {
+		if i == 0 && name == "list" && g.RawListHead && r.Chance(1, 3) {
+			// the raw text decides the list's element kind, pair by pair (differential checks only:
+			// what list() of mixed kinds holds is not documented, that both modes agree is required)
+			args[i] = Value()
+			continue
+		}
 		switch r.Intn(4) {
 		case 0:
 			args[i] = Call("int", Value())
